@@ -222,6 +222,14 @@ func (e *fxEngine) compute(fn *ssa.Function) *fxSet {
 			}
 		}
 	}
+	if ok && !okCount {
+		// the same count written upwards: for i := 0; i < n; i++
+		if bo, isBo := iff.Cond.(*ssa.BinOp); isBo && bo.Op == token.LSS && bo.Y == ssa.Value(fn.Params[1]) {
+			if ph, isPh := bo.X.(*ssa.Phi); isPh && ph.Block() == header && phiStartsAt(ph, 0) && phiStepsByOne(ph, header) {
+				okCount = true
+			}
+		}
+	}
 	if !okCount {
 		return &fxSet{variable: "loop not of the form 'for i := n; i > 0; i--'"}
 	}
